@@ -45,7 +45,7 @@ func runRange(b *harness.B, share, shares int, light bool) {
 		ns = append(ns, 1<<k-1, 1<<k, 1<<k+1)
 	}
 	ns = append(ns, 3<<14, 1<<16+3, 1<<17+1)
-	for k := 0; k < b.Pick(24, 160); k++ {
+	for k := 0; k < b.Pick(24, 600); k++ {
 		ns = append(ns, 97+b.Rng.IntN(1<<16-97))
 	}
 	if light {
